@@ -1,4 +1,6 @@
 import GaeaVerif.Model.InsertPlan
+import GaeaVerif.Model.InsertStored
+import GaeaVerif.Lemmas.InsertStoredLemmas
 import GaeaVerif.Lemmas.RouteLists
 import GaeaVerif.Lemmas.ShardLayoutLemmas
 /-
@@ -9,11 +11,14 @@ import GaeaVerif.Lemmas.ShardLayoutLemmas
 namespace GaeaVerif.C03
 open GaeaVerif GaeaVerif.Layout GaeaVerif.Insert
 
-/-- the sharding cell of the row is a literal which the rule places in table `i` -/
-def PlacedAt (sci : Nat) (row : Row) (i : Int) : Prop := ∃ txt, row[sci]? = some (.lit txt (.ok i))
+/-- the sharding cell of the row is a literal the planner places (an integer
+    or a string literal; on a hash rule not a string MySQL reads as a number
+    while the rule hashes its text), and the rule places it in table `i` -/
+def PlacedAt (rt : String) (sci : Nat) (row : Row) (i : Int) : Prop :=
+  ∃ txt val, row[sci]? = some (.lit txt val (.ok i)) ∧ shardingValueOk head rt val = true
 
 /-- the sharding value of the row can be routed -/
-def Routable (sci : Nat) (row : Row) : Prop := ∃ i, PlacedAt sci row i
+def Routable (rt : String) (sci : Nat) (row : Row) : Prop := ∃ i, PlacedAt rt sci row i
 
 /-! ### `addRow` / `splitRows`: the batch split of `handleInsertValues` -/
 
@@ -49,9 +54,9 @@ theorem addRow_perm (i : Int) (row : Row) (acc : List (Int × List Row)) :
       exact List.perm_middle
 
 /-- invariant of the accumulator of `handleInsertValues` -/
-structure GroupsOK (sci : Nat) (acc : List (Int × List Row)) : Prop where
+structure GroupsOK (rt : String) (sci : Nat) (acc : List (Int × List Row)) : Prop where
   nodup : (acc.map (·.1)).Nodup
-  placed : ∀ g ∈ acc, ∀ row ∈ g.2, PlacedAt sci row g.1
+  placed : ∀ g ∈ acc, ∀ row ∈ g.2, PlacedAt rt sci row g.1
   nonempty : ∀ g ∈ acc, g.2 ≠ []
 
 theorem addRow_mem (i : Int) (row : Row) (acc : List (Int × List Row)) (g : Int × List Row)
@@ -77,8 +82,8 @@ theorem addRow_mem (i : Int) (row : Row) (acc : List (Int × List Row)) (g : Int
           · exact Or.inl h3
           · exact Or.inr (by simp [h3])
 
-theorem addRow_ok (sci : Nat) (i : Int) (row : Row) (acc : List (Int × List Row))
-    (hacc : GroupsOK sci acc) (hrow : PlacedAt sci row i) : GroupsOK sci (addRow i row acc) := by
+theorem addRow_ok (rt : String) (sci : Nat) (i : Int) (row : Row) (acc : List (Int × List Row))
+    (hacc : GroupsOK rt sci acc) (hrow : PlacedAt rt sci row i) : GroupsOK rt sci (addRow i row acc) := by
   refine ⟨?_, ?_, ?_⟩
   · rw [addRow_keys]
     split
@@ -103,10 +108,10 @@ theorem addRow_ok (sci : Nat) (i : Int) (row : Row) (acc : List (Int × List Row
     · rw [h2]; simp
 
 /-- what an accepted batch split guarantees, for any accumulator -/
-theorem splitRows_inv (sci : Nat) (rows : List Row) (acc groups : List (Int × List Row))
-    (hacc : GroupsOK sci acc) (h : splitRows false sci rows acc = .ok groups) :
-    GroupsOK sci groups ∧ (groups.flatMap (·.2)).Perm (acc.flatMap (·.2) ++ rows) ∧
-      ∀ row ∈ rows, Routable sci row := by
+theorem splitRows_inv (rt : String) (sci : Nat) (rows : List Row) (acc groups : List (Int × List Row))
+    (hacc : GroupsOK rt sci acc) (h : splitRows head rt sci rows acc = .ok groups) :
+    GroupsOK rt sci groups ∧ (groups.flatMap (·.2)).Perm (acc.flatMap (·.2) ++ rows) ∧
+      ∀ row ∈ rows, Routable rt sci row := by
   induction rows generalizing acc with
   | nil =>
     simp only [splitRows, R.ok.injEq] at h
@@ -116,37 +121,40 @@ theorem splitRows_inv (sci : Nat) (rows : List Row) (acc groups : List (Int × L
     simp only [splitRows] at h
     split at h
     · simp at h
-    · rename_i txt i hcell
-      have hp : PlacedAt sci row i := ⟨txt, hcell⟩
-      obtain ⟨h1, h2, h3⟩ := ih (addRow i row acc) (addRow_ok sci i row acc hacc hp) h
-      refine ⟨h1, ?_, ?_⟩
-      · refine h2.trans ?_
-        refine (List.Perm.append_right rest (addRow_perm i row acc)).trans ?_
-        simp only [List.cons_append]
-        exact List.perm_middle.symm
-      · intro r hr
-        simp only [List.mem_cons] at hr
-        rcases hr with hr | hr
-        · subst hr; exact ⟨i, hp⟩
-        · exact h3 r hr
-    all_goals simp at h
+    · rename_i txt val i hcell
+      split at h
+      · rename_i hok
+        have hp : PlacedAt rt sci row i := ⟨txt, val, hcell, hok⟩
+        obtain ⟨h1, h2, h3⟩ := ih (addRow i row acc) (addRow_ok rt sci i row acc hacc hp) h
+        refine ⟨h1, ?_, ?_⟩
+        · refine h2.trans ?_
+          refine (List.Perm.append_right rest (addRow_perm i row acc)).trans ?_
+          simp only [List.cons_append]
+          exact List.perm_middle.symm
+        · intro r hr
+          simp only [List.mem_cons] at hr
+          rcases hr with hr | hr
+          · subst hr; exact ⟨i, hp⟩
+          · exact h3 r hr
+      · simp at h
+    all_goals first | (simp at h; done) | (split at h <;> simp_all)
 
 /-- **Batch split (the VALUES form).** If `handleInsertValues` accepts the rows,
     the per-table row lists together are a permutation of the statement's rows
     (nothing lost, nothing duplicated), no table index occurs twice, every list
     is non-empty and every row sits under the index its sharding literal is
     placed in. -/
-theorem splitRows_partition (sci : Nat) (rows : List Row) (groups : List (Int × List Row))
-    (h : splitRows false sci rows [] = .ok groups) :
+theorem splitRows_partition (rt : String) (sci : Nat) (rows : List Row) (groups : List (Int × List Row))
+    (h : splitRows head rt sci rows [] = .ok groups) :
     (groups.flatMap (·.2)).Perm rows ∧ (groups.map (·.1)).Nodup ∧
-      (∀ g ∈ groups, g.2 ≠ [] ∧ ∀ row ∈ g.2, PlacedAt sci row g.1) := by
-  have hnil : GroupsOK sci [] := ⟨by simp, by simp, by simp⟩
-  obtain ⟨h1, h2, _⟩ := splitRows_inv sci rows [] groups hnil h
+      (∀ g ∈ groups, g.2 ≠ [] ∧ ∀ row ∈ g.2, PlacedAt rt sci row g.1) := by
+  have hnil : GroupsOK rt sci [] := ⟨by simp, by simp, by simp⟩
+  obtain ⟨h1, h2, _⟩ := splitRows_inv rt sci rows [] groups hnil h
   exact ⟨by simpa using h2, h1.nodup, fun g hg => ⟨h1.nonempty g hg, h1.placed g hg⟩⟩
 
 /-- a row whose sharding value cannot be routed makes the split fail (or panic) -/
-theorem splitRows_reject (sci : Nat) (rows : List Row) (acc : List (Int × List Row))
-    (hbad : ∃ row ∈ rows, ¬ Routable sci row) : ∀ groups, splitRows false sci rows acc ≠ .ok groups := by
+theorem splitRows_reject (rt : String) (sci : Nat) (rows : List Row) (acc : List (Int × List Row))
+    (hbad : ∃ row ∈ rows, ¬ Routable rt sci row) : ∀ groups, splitRows head rt sci rows acc ≠ .ok groups := by
   intro groups h
   induction rows generalizing acc with
   | nil => simp at hbad
@@ -154,13 +162,16 @@ theorem splitRows_reject (sci : Nat) (rows : List Row) (acc : List (Int × List 
     simp only [splitRows] at h
     split at h
     · simp at h
-    · rename_i txt i hcell
-      obtain ⟨r, hr, hnr⟩ := hbad
-      simp only [List.mem_cons] at hr
-      rcases hr with hr | hr
-      · subst hr; exact hnr ⟨i, txt, hcell⟩
-      · exact ih (addRow i row acc) ⟨r, hr, hnr⟩ h
-    all_goals simp at h
+    · rename_i txt val i hcell
+      split at h
+      · rename_i hok
+        obtain ⟨r, hr, hnr⟩ := hbad
+        simp only [List.mem_cons] at hr
+        rcases hr with hr | hr
+        · subst hr; exact hnr ⟨i, txt, val, hcell, hok⟩
+        · exact ih (addRow i row acc) ⟨r, hr, hnr⟩ h
+      · simp at h
+    all_goals first | (simp at h; done) | (split at h <;> simp_all)
 
 /-! ### From the route result to the per-table statements -/
 
@@ -173,18 +184,21 @@ structure Stored (t : TableRule) (s : Stmt) (i : Int) (rows : List Row) (o : Tar
   table : restoreTableName t.layout s.schema s.table "" i = .ok [o.sql.table]
   rows : o.sql.rows = rows
   cols : o.sql.cols = s.cols
+  /-- REPLACE / IGNORE / priority / ON DUPLICATE KEY UPDATE are those of the statement -/
+  flags : o.sql.flags = s.flags
   /-- `i` is one of the tables the rule maps to a slice -/
   known : mapGet t.layout.t2s i ≠ none
 
 theorem restoreInsert_spec (t : TableRule) (s : Stmt) (rows : List Row) (i : Int) (o : Out)
     (h : restoreInsert t s rows i = .ok o) :
-    restoreTableName t.layout s.schema s.table "" i = .ok [o.table] ∧ o.rows = rows ∧ o.cols = s.cols := by
+    restoreTableName t.layout s.schema s.table "" i = .ok [o.table] ∧ o.rows = rows ∧ o.cols = s.cols ∧
+      o.flags = s.flags := by
   unfold restoreInsert at h
   split at h
   · rename_i c cs heq
     simp only [R.ok.injEq] at h
     subst h
-    refine ⟨?_, rfl, rfl⟩
+    refine ⟨?_, rfl, rfl, rfl⟩
     unfold restoreTableName at heq ⊢
     split at heq <;> simp at heq
     rename_i sc hsc
@@ -196,9 +210,9 @@ theorem restoreInsert_spec (t : TableRule) (s : Stmt) (rows : List Row) (i : Int
 theorem stored_of (t : TableRule) (s : Stmt) (rows : List Row) (i : Int) (sql : Out) (o : Target Out)
     (h1 : restoreInsert t s rows i = .ok sql) (h2 : targetOf t.layout i sql = .ok o) : Stored t s i rows o := by
   obtain ⟨e, hk⟩ := targetOf_sql _ _ _ _ h2
-  obtain ⟨a, b, c⟩ := restoreInsert_spec t s rows i sql h1
+  obtain ⟨a, b, c, d⟩ := restoreInsert_spec t s rows i sql h1
   subst e
-  exact ⟨h2, a, b, c, hk⟩
+  exact ⟨h2, a, b, c, d, hk⟩
 
 theorem multiLoop_spec (t : TableRule) (s : Stmt) (groups : List (Int × List Row)) (out : List (Target Out))
     (h : multiLoop t.layout (restoreInsert t s) (groups.map (·.2)) (groups.map (·.1)) = .ok out) :
@@ -242,9 +256,9 @@ theorem shardingSQLs_spec (t : TableRule) (s : Stmt) (idxs : List Int) (out : Li
 
 /-- what `HandleInsertStmt` does before the rows are looked at -/
 theorem handleInsertStmt_sharded (t : TableRule) (seq : Option Seq) (s : Stmt) (out : List (Target Out))
-    (hk : t.layout.kind ≠ .global) (h : handleInsertStmt false t seq s = .ok out) :
-    ∃ s' sci, precheckInsertStmt false s = .ok () ∧ handleInsertGlobalSequenceValue seq s = .ok s' ∧
-      lastIndex t.shardCol s'.cols = some sci ∧ handleInsertValues false t s' sci = .ok out := by
+    (hk : t.layout.kind ≠ .global) (h : handleInsertStmt head t seq s = .ok out) :
+    ∃ s' sci, precheckInsertStmt head s = .ok () ∧ handleInsertGlobalSequenceValue seq s = .ok s' ∧
+      lastIndex t.shardCol s'.cols = some sci ∧ handleInsertValues head t s' sci = .ok out := by
   unfold handleInsertStmt at h
   split at h <;> try simp at h
   rename_i hpre
@@ -269,14 +283,14 @@ theorem handleInsertStmt_sharded (t : TableRule) (seq : Option Seq) (s : Stmt) (
     sharding literal is placed in by `FindTableIndex`.  In particular every
     row's sharding value was routable. -/
 theorem insert_partition (t : TableRule) (seq : Option Seq) (s : Stmt) (out : List (Target Out))
-    (hk : t.layout.kind ≠ .global) (h : handleInsertStmt false t seq s = .ok out) :
+    (hk : t.layout.kind ≠ .global) (h : handleInsertStmt head t seq s = .ok out) :
     ∃ s' sci, handleInsertGlobalSequenceValue seq s = .ok s' ∧ lastIndex t.shardCol s'.cols = some sci ∧
       (s'.setMode = false →
         ∃ groups : List (Int × List Row),
           Forall₂ (fun g o => Stored t s' g.1 g.2 o) groups out ∧
           (groups.flatMap (·.2)).Perm s'.rows ∧
           (groups.map (·.1)).Nodup ∧
-          (∀ g ∈ groups, g.2 ≠ [] ∧ ∀ row ∈ g.2, PlacedAt sci row g.1)) := by
+          (∀ g ∈ groups, g.2 ≠ [] ∧ ∀ row ∈ g.2, PlacedAt t.ruleType sci row g.1)) := by
   obtain ⟨s', sci, _, hseq, hsci, hv⟩ := handleInsertStmt_sharded t seq s out hk h
   refine ⟨s', sci, hseq, hsci, ?_⟩
   intro hm
@@ -287,17 +301,17 @@ theorem insert_partition (t : TableRule) (seq : Option Seq) (s : Stmt) (out : Li
   unfold generateMultiShardingSQLs at hv
   split at hv
   · simp at hv
-  · obtain ⟨p1, p2, p3⟩ := splitRows_partition sci s'.rows groups hg
+  · obtain ⟨p1, p2, p3⟩ := splitRows_partition t.ruleType sci s'.rows groups hg
     exact ⟨groups, multiLoop_spec t s' groups out hv, p1, p2, p3⟩
 
 /-- **C03 (SET form).** An accepted `INSERT … SET` on a sharded table produces
     exactly one statement: the one for the table its sharding literal is placed
     in, which is one of the rule's tables. -/
 theorem insert_set_once (t : TableRule) (seq : Option Seq) (s : Stmt) (out : List (Target Out))
-    (hk : t.layout.kind ≠ .global) (h : handleInsertStmt false t seq s = .ok out) :
+    (hk : t.layout.kind ≠ .global) (h : handleInsertStmt head t seq s = .ok out) :
     ∃ s' sci, handleInsertGlobalSequenceValue seq s = .ok s' ∧ lastIndex t.shardCol s'.cols = some sci ∧
       (s'.setMode = true →
-        ∃ row i o, s'.rows = [row] ∧ out = [o] ∧ PlacedAt sci row i ∧ i ∈ t.layout.idxs ∧ Stored t s' i [row] o) := by
+        ∃ row i o, s'.rows = [row] ∧ out = [o] ∧ PlacedAt t.ruleType sci row i ∧ i ∈ t.layout.idxs ∧ Stored t s' i [row] o) := by
   obtain ⟨s', sci, _, hseq, hsci, hv⟩ := handleInsertStmt_sharded t seq s out hk h
   refine ⟨s', sci, hseq, hsci, ?_⟩
   intro hm
@@ -305,25 +319,30 @@ theorem insert_set_once (t : TableRule) (seq : Option Seq) (s : Stmt) (out : Lis
   simp only [hm, ↓reduceIte] at hv
   split at hv <;> try simp at hv
   rename_i row hrows
-  split at hv <;> try simp at hv
-  rename_i txt i hcell
-  unfold generateMultiShardingSQLs at hv
   split at hv
   · simp at hv
-  · rename_i hlen
-    simp only [List.length_cons, List.length_nil, Nat.zero_add, ne_eq, Decidable.not_not] at hlen
-    match hi : Route.interList t.layout.idxs [i], hlen with
-    | [a], _ =>
-      rw [hi] at hv
-      have hspec := multiLoop_spec t s' [(a, [row])] out (by simpa using hv)
-      have ha : a ∈ Route.interList t.layout.idxs [i] := by rw [hi]; simp
-      obtain ⟨ha1, ha2⟩ := Route.interList_mem_left _ _ _ ha
-      simp only [List.mem_singleton] at ha2
-      subst ha2
-      cases hspec with
-      | cons hst hrest =>
-        cases hrest
-        exact ⟨row, a, _, hrows, rfl, ⟨txt, hcell⟩, ha1, hst⟩
+  · rename_i txt val i hcell
+    split at hv
+    · rename_i hok
+      unfold generateMultiShardingSQLs at hv
+      split at hv
+      · simp at hv
+      · rename_i hlen
+        simp only [List.length_cons, List.length_nil, Nat.zero_add, ne_eq, Decidable.not_not] at hlen
+        match hi : Route.interList t.layout.idxs [i], hlen with
+        | [a], _ =>
+          rw [hi] at hv
+          have hspec := multiLoop_spec t s' [(a, [row])] out (by simpa using hv)
+          have ha : a ∈ Route.interList t.layout.idxs [i] := by rw [hi]; simp
+          obtain ⟨ha1, ha2⟩ := Route.interList_mem_left _ _ _ ha
+          simp only [List.mem_singleton] at ha2
+          subst ha2
+          cases hspec with
+          | cons hst hrest =>
+            cases hrest
+            exact ⟨row, a, _, hrows, rfl, ⟨txt, val, hcell, hok⟩, ha1, hst⟩
+    · simp at hv
+  all_goals first | (simp at hv; done) | (split at hv <;> simp_all)
 
 /-- **C03 (rejection).** If, after the global-sequence values were filled in,
     some row's sharding value is not a literal that `FindTableIndex` places
@@ -333,8 +352,8 @@ theorem insert_set_once (t : TableRule) (seq : Option Seq) (s : Stmt) (out : Lis
 theorem insert_reject (t : TableRule) (seq : Option Seq) (s s' : Stmt) (sci : Nat)
     (hk : t.layout.kind ≠ .global)
     (hseq : handleInsertGlobalSequenceValue seq s = .ok s') (hsci : lastIndex t.shardCol s'.cols = some sci)
-    (hbad : ∃ row ∈ s'.rows, ¬ Routable sci row) :
-    ∀ out, handleInsertStmt false t seq s ≠ .ok out := by
+    (hbad : ∃ row ∈ s'.rows, ¬ Routable t.ruleType sci row) :
+    ∀ out, handleInsertStmt head t seq s ≠ .ok out := by
   intro out h
   obtain ⟨s'', sci'', _, hseq', hsci', hv⟩ := handleInsertStmt_sharded t seq s out hk h
   rw [hseq] at hseq'
@@ -351,18 +370,23 @@ theorem insert_reject (t : TableRule) (seq : Option Seq) (s s' : Stmt) (sci : Na
     rw [hrows] at hr
     simp only [List.mem_singleton] at hr
     subst hr
-    split at hv <;> try simp at hv
-    rename_i txt i hcell
-    exact hnr ⟨i, txt, hcell⟩
+    split at hv
+    · simp at hv
+    · rename_i txt val i hcell
+      split at hv
+      · rename_i hok
+        exact hnr ⟨i, txt, val, hcell, hok⟩
+      · simp at hv
+    all_goals first | (simp at hv; done) | (split at hv <;> simp_all)
   · split at hv <;> try simp at hv
     rename_i groups hg
-    exact splitRows_reject sci s'.rows [] hbad groups hg
+    exact splitRows_reject t.ruleType sci s'.rows [] hbad groups hg
 
 /-- a statement that does not name the sharding column is rejected -/
 theorem insert_reject_no_sharding_column (t : TableRule) (seq : Option Seq) (s s' : Stmt)
     (hk : t.layout.kind ≠ .global)
     (hseq : handleInsertGlobalSequenceValue seq s = .ok s') (hsci : lastIndex t.shardCol s'.cols = none) :
-    ∀ out, handleInsertStmt false t seq s ≠ .ok out := by
+    ∀ out, handleInsertStmt head t seq s ≠ .ok out := by
   intro out h
   obtain ⟨s'', sci'', _, hseq', hsci', _⟩ := handleInsertStmt_sharded t seq s out hk h
   rw [hseq] at hseq'
@@ -375,12 +399,12 @@ theorem insert_reject_no_sharding_column (t : TableRule) (seq : Option Seq) (s s
     (it could not be stored by any backend) makes the statement rejected -/
 theorem insert_reject_ragged (t : TableRule) (seq : Option Seq) (s : Stmt)
     (hm : s.setMode = false) (hbad : ∃ row ∈ s.rows, row.length ≠ s.cols.length) :
-    ∀ out, handleInsertStmt false t seq s ≠ .ok out := by
+    ∀ out, handleInsertStmt head t seq s ≠ .ok out := by
   intro out h
   unfold handleInsertStmt at h
-  have : precheckInsertStmt false s ≠ .ok () := by
+  have : precheckInsertStmt head s ≠ .ok () := by
     unfold precheckInsertStmt
-    simp only [hm, Bool.false_eq_true, ↓reduceIte]
+    simp only [hm, head_rows, Bool.false_eq_true, ↓reduceIte]
     split
     · simp
     · split
@@ -401,7 +425,7 @@ theorem insert_reject_ragged (t : TableRule) (seq : Option Seq) (s : Stmt)
     whole statement (all rows), filed under the slice and database of that
     copy. -/
 theorem insert_global (t : TableRule) (seq : Option Seq) (s : Stmt) (out : List (Target Out))
-    (hk : t.layout.kind = .global) (h : handleInsertStmt false t seq s = .ok out) :
+    (hk : t.layout.kind = .global) (h : handleInsertStmt head t seq s = .ok out) :
     ∃ s', handleInsertGlobalSequenceValue seq s = .ok s' ∧
       Forall₂ (fun i o => Stored t s' i s'.rows o) t.layout.idxs out := by
   unfold handleInsertStmt at h
@@ -448,11 +472,11 @@ theorem point_query_route (rr : Route.Rule) (l : Route.Lit) (i : Int) (hs : Rout
     statement carrying the row is the statement of table `i`, and a point query
     `shardcol = literal` with the same placement is routed to exactly `[i]`. -/
 theorem insert_findable (t : TableRule) (seq : Option Seq) (s : Stmt) (out : List (Target Out))
-    (rr : Route.Rule) (hk : t.layout.kind ≠ .global) (h : handleInsertStmt false t seq s = .ok out)
+    (rr : Route.Rule) (hk : t.layout.kind ≠ .global) (h : handleInsertStmt head t seq s = .ok out)
     (hidx : rr.idxs = t.layout.idxs) (hs : Route.Sorted rr.idxs) (hg : rr.isGlobal = false)
     (hlay : ∀ i, mapGet t.layout.t2s i ≠ none → i ∈ t.layout.idxs) :
     ∃ s' sci, handleInsertGlobalSequenceValue seq s = .ok s' ∧ lastIndex t.shardCol s'.cols = some sci ∧
-      ∀ o ∈ out, ∀ row ∈ o.sql.rows, ∃ i, PlacedAt sci row i ∧ Stored t s' i o.sql.rows o ∧
+      ∀ o ∈ out, ∀ row ∈ o.sql.rows, ∃ i, PlacedAt t.ruleType sci row i ∧ Stored t s' i o.sql.rows o ∧
         ∀ l : Route.Lit, l.place = some i → Route.routeStmt rr (some (.cmp true false .eq l)) = some [i] := by
   cases hm : (match handleInsertGlobalSequenceValue seq s with | .ok s' => s'.setMode | _ => false) with
   | false =>
@@ -485,10 +509,11 @@ theorem insert_findable (t : TableRule) (seq : Option Seq) (s : Stmt) (out : Lis
 /-! ### The global sequence only fills the sequence cells -/
 
 /-- `r'` is `r`, or `r` with its sequence cell (which was `nextval()` or NULL)
-    replaced by a literal -/
+    replaced by the integer literal of a sequence value, carrying the placement
+    of that value -/
 def SeqFilled (q : Seq) (si : Nat) (r r' : Row) : Prop :=
   r' = r ∨ ((r[si]? = some .nextval ∨ r[si]? = some .null) ∧
-    ∃ k pl, r' = r.set si (.lit (toString (q.start + (k : Nat))) pl))
+    ∃ k : Nat, r' = r.set si (.lit (toString (q.start + k)) (.int (q.start + k)) (q.places.getD k .err)))
 
 theorem consRow_ok (row : Row) (x : R (List Row × Nat)) (rows' : List Row) (m : Nat)
     (h : consRow row x = .ok (rows', m)) : ∃ rs, x = .ok (rs, m) ∧ rows' = row :: rs := by
@@ -520,7 +545,7 @@ theorem seqRows_spec (q : Seq) (si : Nat) (rows rows' : List Row) (n m : Nat)
             cases c <;> simp [wantsSeq] at hw
             · exact Or.inr hc
             · exact Or.inl hc
-          refine .cons (Or.inr ⟨hcc, n, q.places.getD n .err, ?_⟩) (ih rs (n + 1) hr)
+          refine .cons (Or.inr ⟨hcc, n, ?_⟩) (ih rs (n + 1) hr)
           unfold nextSeq at hn
           split at hn <;> simp at hn
           subst hn
@@ -561,37 +586,37 @@ theorem sequence_fills_only_sequence_cells (q : Seq) (s s' : Stmt) (hm : s.setMo
 def exRule : TableRule :=
   { layout := { kind := .kingshard, db := "db_ks", slices := ["slice-0", "slice-1"], idxs := [0, 1, 2, 3],
                 t2s := [(0, 0), (1, 0), (2, 1), (3, 1)], dbs := [] },
-    shardCol := "k" }
+    shardCol := "k", ruleType := "hash" }
 
 /-- `INSERT INTO t (k,a) VALUES (1,10),(6,NULL),(5,2+1)` with keys placed in tables 1, 2, 1 -/
 def exStmt : Stmt :=
   { hasSelect := false, setMode := false, cols := ["k", "a"],
-    rows := [[.lit "1" (.ok 1), .lit "10" .err], [.lit "6" (.ok 2), .null], [.lit "5" (.ok 1), .expr "2+1"]],
+    rows := [[.lit "1" (.int 1) (.ok 1), .lit "10" (.int 10) .err], [.lit "6" (.int 6) (.ok 2), .null], [.lit "5" (.int 5) (.ok 1), .expr "2+1"]],
     onDup := [], schema := "", table := "t" }
 
 def exOut1 : Target Out :=
   { slice := "slice-0", db := "db_ks",
     sql := { table := ["t_0001"], cols := ["k", "a"],
-             rows := [[.lit "1" (.ok 1), .lit "10" .err], [.lit "5" (.ok 1), .expr "2+1"]] } }
+             rows := [[.lit "1" (.int 1) (.ok 1), .lit "10" (.int 10) .err], [.lit "5" (.int 5) (.ok 1), .expr "2+1"]] } }
 
 def exOut2 : Target Out :=
   { slice := "slice-1", db := "db_ks",
-    sql := { table := ["t_0002"], cols := ["k", "a"], rows := [[.lit "6" (.ok 2), .null]] } }
+    sql := { table := ["t_0002"], cols := ["k", "a"], rows := [[.lit "6" (.int 6) (.ok 2), .null]] } }
 
 /-- the hypotheses of `insert_partition` / `insert_findable` are satisfiable: the
     statement is accepted and split over two tables -/
-example : handleInsertStmt false exRule none exStmt = .ok [exOut1, exOut2] ∧ exRule.layout.kind ≠ .global := by
+example : handleInsertStmt head exRule none exStmt = .ok [exOut1, exOut2] ∧ exRule.layout.kind ≠ .global := by
   decide
 
 /-- `insert_set_once` is not vacuous: `INSERT INTO t SET k = 6, a = NULL` goes to table 2 only -/
-def exSetStmt : Stmt := { exStmt with setMode := true, rows := [[.lit "6" (.ok 2), .null]] }
+def exSetStmt : Stmt := { exStmt with setMode := true, rows := [[.lit "6" (.int 6) (.ok 2), .null]] }
 
-example : handleInsertStmt false exRule none exSetStmt = .ok [exOut2] := by
+example : handleInsertStmt head exRule none exSetStmt = .ok [exOut2] := by
   have hi : Route.interList [0, 1, 2, 3] [2] = [2] := by simp [Route.interList]
-  have h1 : handleInsertValues false exRule exSetStmt 0 = .ok [exOut2] := by
+  have h1 : handleInsertValues head exRule exSetStmt 0 = .ok [exOut2] := by
     simp only [handleInsertValues, exRule, exSetStmt, exStmt, ↓reduceIte, List.getElem?_cons_zero, hi]
     decide
-  have h2 : precheckInsertStmt false exSetStmt = .ok () := by decide
+  have h2 : precheckInsertStmt head exSetStmt = .ok () := by decide
   have h3 : exRule.layout.kind ≠ .global := by decide
   have h4 : handleInsertColumnNames exRule exSetStmt = .ok 0 := by decide
   have h5 : handleInsertOnDuplicate exRule exSetStmt = .ok () := by decide
@@ -611,14 +636,14 @@ example : (∀ i, mapGet exRule.layout.t2s i ≠ none → i ∈ exRule.layout.id
 
 /-- `INSERT INTO t (k,a) VALUES (1,1),(-5,2),(2+1,3)`: the probed statement -/
 def exExprStmt : Stmt :=
-  { exStmt with rows := [[.lit "1" (.ok 1), .lit "1" .err], [.expr "-5", .lit "2" .err], [.expr "2+1", .lit "3" .err]] }
+  { exStmt with rows := [[.lit "1" (.int 1) (.ok 1), .lit "1" (.int 1) .err], [.expr "-5", .lit "2" (.int 2) .err], [.expr "2+1", .lit "3" (.int 3) .err]] }
 
 /-- the repaired code rejects it (hypotheses of `insert_reject` satisfiable) -/
-example : handleInsertStmt false exRule none exExprStmt = .fail ∧
+example : handleInsertStmt head exRule none exExprStmt = .fail ∧
     handleInsertGlobalSequenceValue none exExprStmt = .ok exExprStmt ∧
-    lastIndex exRule.shardCol exExprStmt.cols = some 0 ∧ ¬ Routable 0 [.expr "-5", .lit "2" .err] := by
+    lastIndex exRule.shardCol exExprStmt.cols = some 0 ∧ ¬ Routable "hash" 0 [.expr "-5", .lit "2" (.int 2) .err] := by
   refine ⟨by decide, by decide, by decide, ?_⟩
-  rintro ⟨i, txt, h⟩
+  rintro ⟨i, txt, val, h, _⟩
   simp at h
 
 /-- what a plan stores where: per produced statement its slice, database,
@@ -638,39 +663,39 @@ def observe : R (List (Target Out)) → Option (List Seen)
     rows with expression sharding values were silently dropped and the
     statement accepted with the first row only. -/
 theorem pinned_drops_expression_rows_witness :
-    observe (handleInsertStmt true exRule none exExprStmt) =
-      some [⟨"slice-0", "db_ks", ["t_0001"], [[.lit "1" (.ok 1), .lit "1" .err]]⟩] ∧ exExprStmt.rows.length = 3 := by
+    observe (handleInsertStmt pinned exRule none exExprStmt) =
+      some [⟨"slice-0", "db_ks", ["t_0001"], [[.lit "1" (.int 1) (.ok 1), .lit "1" (.int 1) .err]]⟩] ∧ exExprStmt.rows.length = 3 := by
   decide
 
 /-- with only expression rows the pinned planner accepted the statement with an empty plan -/
 theorem pinned_all_expression_rows_empty_plan_witness :
-    handleInsertStmt true exRule none { exStmt with rows := [[.expr "-5", .null], [.expr "2+1", .null]] } = .ok [] := by
+    handleInsertStmt pinned exRule none { exStmt with rows := [[.expr "-5", .null], [.expr "2+1", .null]] } = .ok [] := by
   decide
 
 /-- hash rule with a single sub table -/
 def exOne : TableRule :=
   { layout := { kind := .kingshard, db := "db_ks", slices := ["slice-1"], idxs := [0], t2s := [(0, 0)], dbs := [] },
-    shardCol := "k" }
+    shardCol := "k", ruleType := "hash" }
 
 /-- SET form, pinned: an expression sharding value was accepted on a rule with a
     single sub table (on the others it was rejected only by the statement/route
     count check) -/
 theorem pinned_set_expression_accepted_witness :
-    observe (handleInsertStmt true exOne none { exStmt with setMode := true, rows := [[.expr "-5", .lit "3" .err]] }) =
-      some [⟨"slice-1", "db_ks", ["t_0000"], [[.expr "-5", .lit "3" .err]]⟩] ∧
-    handleInsertStmt false exOne none { exStmt with setMode := true, rows := [[.expr "-5", .lit "3" .err]] } = .fail := by
+    observe (handleInsertStmt pinned exOne none { exStmt with setMode := true, rows := [[.expr "-5", .lit "3" (.int 3) .err]] }) =
+      some [⟨"slice-1", "db_ks", ["t_0000"], [[.expr "-5", .lit "3" (.int 3) .err]]⟩] ∧
+    handleInsertStmt head exOne none { exStmt with setMode := true, rows := [[.expr "-5", .lit "3" (.int 3) .err]] } = .fail := by
   decide
 
 /-- **Defect of the pinned tree (repaired by e8a3dcf)**: a later row shorter than
     the column list made the planner index past its end; a longer one was
     accepted and split off to its own table. -/
 theorem pinned_ragged_rows_witness :
-    handleInsertStmt true exRule none { exStmt with cols := ["a", "k"], rows := [[.null, .lit "1" (.ok 1)], [.null]] } = .panic ∧
-    observe (handleInsertStmt true exRule none
-        { exStmt with cols := ["a", "k"], rows := [[.null, .lit "1" (.ok 1)], [.null, .lit "3" (.ok 3), .null]] }) =
-      some [⟨"slice-0", "db_ks", ["t_0001"], [[.null, .lit "1" (.ok 1)]]⟩,
-            ⟨"slice-1", "db_ks", ["t_0003"], [[.null, .lit "3" (.ok 3), .null]]⟩] ∧
-    handleInsertStmt false exRule none { exStmt with cols := ["a", "k"], rows := [[.null, .lit "1" (.ok 1)], [.null]] } = .fail := by
+    handleInsertStmt pinned exRule none { exStmt with cols := ["a", "k"], rows := [[.null, .lit "1" (.int 1) (.ok 1)], [.null]] } = .panic ∧
+    observe (handleInsertStmt pinned exRule none
+        { exStmt with cols := ["a", "k"], rows := [[.null, .lit "1" (.int 1) (.ok 1)], [.null, .lit "3" (.int 3) (.ok 3), .null]] }) =
+      some [⟨"slice-0", "db_ks", ["t_0001"], [[.null, .lit "1" (.int 1) (.ok 1)]]⟩,
+            ⟨"slice-1", "db_ks", ["t_0003"], [[.null, .lit "3" (.int 3) (.ok 3), .null]]⟩] ∧
+    handleInsertStmt head exRule none { exStmt with cols := ["a", "k"], rows := [[.null, .lit "1" (.int 1) (.ok 1)], [.null]] } = .fail := by
   decide
 
 /-- global table with three copies; the sequence column `sid` is not listed -/
@@ -684,10 +709,496 @@ def exSeq : Seq := { pk := "sid", start := 100, failAt := none, places := [] }
 /-- `insert_global` and `sequence_fills_only_sequence_cells` are not vacuous:
     every copy gets the three rows, each extended by its sequence value -/
 example :
-    observe (handleInsertStmt false exGlobal (some exSeq) { exStmt with schema := "db_mycat", rows := [[.lit "1" .err, .null]] }) =
-      some [⟨"slice-2", "db_mycat_0", ["db_mycat_0", "t"], [[.lit "1" .err, .null, .lit "100" .err]]⟩,
-            ⟨"slice-0", "db_mycat_1", ["db_mycat_1", "t"], [[.lit "1" .err, .null, .lit "100" .err]]⟩,
-            ⟨"slice-0", "db_mycat_2", ["db_mycat_2", "t"], [[.lit "1" .err, .null, .lit "100" .err]]⟩] := by
+    observe (handleInsertStmt head exGlobal (some exSeq) { exStmt with schema := "db_mycat", rows := [[.lit "1" (.int 1) .err, .null]] }) =
+      some [⟨"slice-2", "db_mycat_0", ["db_mycat_0", "t"], [[.lit "1" (.int 1) .err, .null, .lit "100" (.int 100) .err]]⟩,
+            ⟨"slice-0", "db_mycat_1", ["db_mycat_1", "t"], [[.lit "1" (.int 1) .err, .null, .lit "100" (.int 100) .err]]⟩,
+            ⟨"slice-0", "db_mycat_2", ["db_mycat_2", "t"], [[.lit "1" (.int 1) .err, .null, .lit "100" (.int 100) .err]]⟩] := by
+  decide
+
+
+/-! ### The table is the one of the value the backend holds (second round)
+
+`insert_findable` says: a point query written with the *same literal* is routed
+to the table the row is in.  The backend does not keep the literal, it keeps a
+value: `'007'` in an integer column is 7, `7` in a string column is `'7'`, and
+a later query is written with that value.  `StoredSound rt find`: whatever
+literal the planner accepts for a rule of type `rt` whose `FindTableIndex` is
+`find`, every other spelling of the stored value (`InsertStored.storedKeys`)
+that `find` places at all is placed in the same table. -/
+
+open GaeaVerif.ShardGo GaeaVerif.ShardPlace GaeaVerif.InsertStored GaeaVerif.ShardLemmas
+
+def StoredSound (rt : String) (find : Key → Out Int) : Prop :=
+  ∀ val i, LitVal.wf val → shardingValueOk head rt val = true → find (keyOf val) = .ok i →
+    ∀ k ∈ storedKeys rt val, ∀ j, find k = .ok j → j = i
+
+theorem storedKeys_mem (rt : String) (val : LitVal) (k : Key) (h : k ∈ storedKeys rt val) :
+    (∃ v, val = .int v ∧ k = .str (fmtInt v)) ∨ (∃ v, val = .uint v ∧ k = .str (fmtNat v)) ∨
+    (∃ s n, val = .str s ∧ mysqlInt s = some n ∧ intKey n = some k) := by
+  unfold storedKeys at h
+  split at h
+  · simp at h
+  · cases val with
+    | int v => simp at h; exact Or.inl ⟨v, rfl, h⟩
+    | uint v => simp at h; exact Or.inr (Or.inl ⟨v, rfl, h⟩)
+    | str s =>
+      simp only at h
+      cases hm : mysqlInt s with
+      | none => simp [hm] at h
+      | some n => simp [hm] at h; exact Or.inr (Or.inr ⟨s, n, rfl, hm, h⟩)
+    | other => simp at h
+
+theorem intKey_some (n : Int) (k : Key) (h : intKey n = some k) :
+    (k = .int64 n ∧ -2 ^ 63 ≤ n ∧ n < 2 ^ 63) ∨ (k = .uint64 n.toNat ∧ 2 ^ 63 ≤ n ∧ n < 2 ^ 64) := by
+  unfold intKey at h
+  split at h
+  · simp at h; exact Or.inl ⟨h.symm, by assumption⟩
+  · split at h
+    · simp at h; exact Or.inr ⟨h.symm, by assumption⟩
+    · simp at h
+
+/-- **Rules that read the key as a number** (`NumValue`: range, mod, mycat_long,
+    mycat_padding_mod, and the rules linked to them): the string literals they
+    accept are exactly spellings `strconv.ParseInt` reads, MySQL reads the same
+    integer from them, and an integer literal is the number of its digits. -/
+theorem viaNum_stored_sound (rt : String) (f : Int → Out Int) : StoredSound rt (viaNum f) := by
+  intro val i hwf _ hfind k hk j hj
+  rcases storedKeys_mem rt val k hk with ⟨v, hv, hkv⟩ | ⟨v, hv, hkv⟩ | ⟨s, n, hv, hm, hkn⟩
+  · subst hv; subst hkv
+    simp only [LitVal.wf] at hwf
+    have hp : parseInt64 (fmtInt v) = some v := parseInt64_fmtInt v ⟨by omega, hwf.2⟩
+    simp only [viaNum, NumValue, hp, keyOf] at hj hfind
+    rw [hfind] at hj; simpa using hj.symm
+  · subst hv; subst hkv
+    simp only [LitVal.wf] at hwf
+    simp only [viaNum, NumValue, parseInt64_fmtNat, keyOf] at hj hfind
+    by_cases hlt : v < 2 ^ 63
+    · simp only [hlt, ↓reduceIte] at hj
+      have : u64ToI64 v = (v : Int) := by unfold u64ToI64; exact wrap64_id _ ⟨by omega, by omega⟩
+      rw [this, hj] at hfind; simpa using hfind
+    · simp [hlt] at hj
+  · subst hv
+    simp only [viaNum, NumValue, keyOf] at hfind
+    cases hp : parseInt64 s with
+    | none => simp [hp] at hfind
+    | some v =>
+      have hm' := mysqlInt_of_parseInt64 s v hp
+      rw [hm] at hm'
+      simp only [Option.some.injEq] at hm'
+      subst hm'
+      have hr : -2 ^ 63 ≤ n ∧ n < 2 ^ 63 := by
+        unfold parseInt64 at hp
+        cases hb : parseBigDec s with
+        | none => simp [hb] at hp
+        | some w =>
+          simp only [hb] at hp
+          split at hp <;> simp at hp
+          subst hp; assumption
+      rcases intKey_some n k hkn with ⟨hk1, _⟩ | ⟨_, h2, _⟩
+      · subst hk1
+        simp only [hp] at hfind
+        simp only [viaNum, NumValue] at hj
+        rw [hfind] at hj; simpa using hj.symm
+      · omega
+
+/-- **mycat_mod** reads the key through `GetString` and `big.Int.SetString` -/
+theorem viaBig_stored_sound (rt : String) (g : Int → Out Int) :
+    StoredSound rt (viaStr fun s => match parseBigDec s with
+      | none => .err .keyPanic
+      | some n => g n) := by
+  intro val i hwf _ hfind k hk j hj
+  rcases storedKeys_mem rt val k hk with ⟨v, hv, hkv⟩ | ⟨v, hv, hkv⟩ | ⟨s, n, hv, hm, hkn⟩
+  · subst hv; subst hkv
+    simp only [viaStr, GetString, keyOf] at hj hfind
+    rw [hfind] at hj; simpa using hj.symm
+  · subst hv; subst hkv
+    simp only [viaStr, GetString, keyOf] at hj hfind
+    rw [hfind] at hj; simpa using hj.symm
+  · subst hv
+    simp only [viaStr, GetString, keyOf] at hfind
+    cases hp : parseBigDec s with
+    | none => simp [hp] at hfind
+    | some v =>
+      have hm' := mysqlInt_of_parseBigDec s v hp
+      rw [hm] at hm'
+      simp only [Option.some.injEq] at hm'
+      subst hm'
+      simp only [hp] at hfind
+      rcases intKey_some n k hkn with ⟨hk1, _⟩ | ⟨hk1, h2, _⟩
+      · subst hk1
+        simp only [viaStr, GetString, parseBigDec_fmtInt] at hj
+        rw [hfind] at hj; simpa using hj.symm
+      · subst hk1
+        have hn : ((n.toNat : Nat) : Int) = n := by omega
+        simp only [viaStr, GetString, parseBigDec_fmtNat, hn] at hj
+        rw [hfind] at hj; simpa using hj.symm
+
+/-- **Rules that hash the text of the key** (`GetString`: mycat_murmur,
+    mycat_string).  FULL STATEMENT, NOT TRUE:
+      `∀ rt f, StoredSound rt (viaStr f)`
+    (`mycat_string_numeric_text_witness` below: `'007'` and 7 are hashed as
+    different texts; known finding `mycat-numeric-string-hashed-as-text`).
+    Proved: an integer literal is placed where the string of its digits is,
+    and so is a string literal that is the decimal spelling of the integer
+    MySQL reads from it. -/
+theorem viaStr_stored_sound_partial (rt : String) (f : GoStr → Out Int) :
+    ∀ val i, LitVal.wf val → (∀ s n, val = .str s → mysqlInt s = some n → s = fmtInt n) →
+      viaStr f (keyOf val) = .ok i → ∀ k ∈ storedKeys rt val, ∀ j, viaStr f k = .ok j → j = i := by
+  intro val i _ hcanon hfind k hk j hj
+  rcases storedKeys_mem rt val k hk with ⟨v, hv, hkv⟩ | ⟨v, hv, hkv⟩ | ⟨s, n, hv, hm, hkn⟩
+  · subst hv; subst hkv
+    simp only [viaStr, GetString, keyOf] at hj hfind
+    rw [hfind] at hj; simpa using hj.symm
+  · subst hv; subst hkv
+    simp only [viaStr, GetString, keyOf] at hj hfind
+    rw [hfind] at hj; simpa using hj.symm
+  · have hs := hcanon s n hv hm
+    subst hv
+    simp only [viaStr, GetString, keyOf] at hfind
+    rcases intKey_some n k hkn with ⟨hk1, _⟩ | ⟨hk1, h2, _⟩
+    · subst hk1
+      simp only [viaStr, GetString, ← hs] at hj
+      rw [hfind] at hj; simpa using hj.symm
+    · subst hk1
+      have hn : fmtNat n.toNat = fmtInt n := by rw [fmtInt_nonneg n (by omega)]
+      simp only [viaStr, GetString, hn, ← hs] at hj
+      rw [hfind] at hj; simpa using hj.symm
+
+/-- **The kingshard hash rule** after e5ce616: a string key the planner accepts
+    is a string of digits `HashValue` reads as the number MySQL reads from it,
+    or MySQL does not read an integer from it at all. -/
+theorem ksHash_stored_sound (n : Nat) : StoredSound "hash" (HashShard.FindForKey n) := by
+  intro val i hwf hok hfind k hk j hj
+  rcases storedKeys_mem "hash" val k hk with ⟨v, hv, hkv⟩ | ⟨v, hv, hkv⟩ | ⟨s, m, hv, hm, hkn⟩
+  · subst hv; subst hkv
+    simp only [LitVal.wf] at hwf
+    have hu : parseUint64 (fmtInt v) = some v.toNat := by
+      rw [fmtInt_nonneg v hwf.1]; exact parseUint64_fmtNat _ (by omega)
+    have hv' : (v % 2 ^ 64).toNat = v.toNat := by
+      have : v % 2 ^ 64 = v := Int.emod_eq_of_lt hwf.1 (by omega)
+      rw [this]
+    simp only [HashShard.FindForKey, HashValue, hu, keyOf, hv'] at hj hfind
+    rw [hfind] at hj; simpa using hj.symm
+  · subst hv; subst hkv
+    simp only [LitVal.wf] at hwf
+    simp only [HashShard.FindForKey, HashValue, parseUint64_fmtNat v hwf, keyOf] at hj hfind
+    rw [hfind] at hj; simpa using hj.symm
+  · subst hv
+    have hlook := looksLikeNumber_of_mysqlInt s m hm
+    simp only [shardingValueOk, head_hashStr, bne_self_eq_false, Bool.false_or, hashStringOk, hlook,
+      Bool.not_true, Bool.or_false] at hok
+    cases hu : parseUint64 s with
+    | none => simp [hu] at hok
+    | some u =>
+      obtain ⟨hud, hlt⟩ := parseUint64_some s u hu
+      have hm' := mysqlInt_of_parseUDec s u hud
+      rw [hm] at hm'
+      simp only [Option.some.injEq] at hm'
+      subst hm'
+      simp only [HashShard.FindForKey, HashValue, hu, keyOf] at hfind
+      rcases intKey_some _ k hkn with ⟨hk1, _, h3⟩ | ⟨hk1, _, _⟩
+      · subst hk1
+        have : ((u : Int) % 2 ^ 64).toNat = u := by
+          have : (u : Int) % 2 ^ 64 = u := Int.emod_eq_of_lt (by omega) (by omega)
+          rw [this]; simp
+        simp only [HashShard.FindForKey, HashValue, this] at hj
+        rw [hfind] at hj; simpa using hj.symm
+      · subst hk1
+        simp only [HashShard.FindForKey, HashValue, Int.toNat_natCast] at hj
+        rw [hfind] at hj; simpa using hj.symm
+
+/-- the rule models these theorems are about, as instances of `viaNum` / `viaStr` -/
+theorem numRange_is_viaNum (shards : List (Int × Int)) :
+    NumRangeShard.FindForKey shards = viaNum (findRange shards 0) := rfl
+theorem mycatLong_is_viaNum (segment : List Int) :
+    MycatPartitionLongShard.FindForKey segment = viaNum (fun h => arrGet segment (slotOf h)) := rfl
+theorem ksMod_is_viaNum (n : Nat) :
+    ModShard.FindForKey n = viaNum (fun v => if n = 0 then .panic else .ok (hackAbs (Int.tmod v n))) := rfl
+theorem mycatMod_is_viaBig (shardNum : Int) :
+    MycatPartitionModShard.FindForKey shardNum = viaStr fun s => match parseBigDec s with
+      | none => .err .keyPanic
+      | some n => if shardNum = 0 then .panic else .ok ((n.natAbs : Int) % shardNum) := by
+  funext key
+  unfold MycatPartitionModShard.FindForKey viaStr
+  cases GetString key <;> rfl
+
+theorem numRange_stored_sound (rt : String) (shards : List (Int × Int)) :
+    StoredSound rt (NumRangeShard.FindForKey shards) := by
+  rw [numRange_is_viaNum]; exact viaNum_stored_sound rt _
+theorem mycatLong_stored_sound (rt : String) (segment : List Int) :
+    StoredSound rt (MycatPartitionLongShard.FindForKey segment) := by
+  rw [mycatLong_is_viaNum]; exact viaNum_stored_sound rt _
+theorem ksMod_stored_sound (rt : String) (n : Nat) : StoredSound rt (ModShard.FindForKey n) := by
+  rw [ksMod_is_viaNum]; exact viaNum_stored_sound rt _
+theorem mycatMod_stored_sound (rt : String) (shardNum : Int) :
+    StoredSound rt (MycatPartitionModShard.FindForKey shardNum) := by
+  rw [mycatMod_is_viaBig]; exact viaBig_stored_sound rt _
+/-- calendar rules: the type of the literal is taken as the type of the column -/
+theorem date_stored_sound (rt : String) (hd : isDateRule rt = true) (find : Key → Out Int) : StoredSound rt find := by
+  intro val i _ _ _ k hk
+  simp [storedKeys, hd] at hk
+
+
+/-! ### Through the planner: every stored row is where its stored value is looked for -/
+
+/-- every literal of the rows that carries a table index is a value the parser
+    can deliver, and the index is what the rule's `FindTableIndex` (`find`)
+    gives for it -/
+def Faithful (find : Key → Out Int) (rows : List Row) : Prop :=
+  ∀ row ∈ rows, ∀ txt val i, Cell.lit txt val (.ok i) ∈ row → LitVal.wf val ∧ find (keyOf val) = .ok i
+
+/-- the values of the sequence are integers the parser could deliver and the
+    placements it carries are those of `find` -/
+def SeqFaithful (find : Key → Out Int) (q : Seq) : Prop :=
+  ∀ (k : Nat) i, q.places[k]? = some (.ok i) →
+    (0 ≤ q.start + k ∧ q.start + k < 2 ^ 63) ∧ find (.int64 (q.start + k)) = .ok i
+
+/-- **The generated sharding keys are placed by the rule too**: filling in the
+    global-sequence values (VALUES form) keeps the rows faithful, so
+    `insert_stored_value` speaks about the rows with generated keys as well. -/
+theorem sequence_keeps_faithful (find : Key → Out Int) (q : Seq) (s s' : Stmt) (hm : s.setMode = false)
+    (h : handleInsertGlobalSequenceValue (some q) s = .ok s') (hq : SeqFaithful find q)
+    (hf : Faithful find s.rows) : Faithful find s'.rows := by
+  have step : ∀ (si : Nat) (rows0 : List Row), Faithful find rows0 → Forall₂ (SeqFilled q si) rows0 s'.rows →
+      Faithful find s'.rows := by
+    intro si rows0 hf0 hall row' hrow' txt val i hmem
+    obtain ⟨r, hr, hfill⟩ := hall.exists_left row' hrow'
+    rcases hfill with he | ⟨_, k, he⟩
+    · rw [he] at hmem; exact hf0 r hr txt val i hmem
+    · rw [he] at hmem
+      rcases List.mem_or_eq_of_mem_set hmem with hin | heq
+      · exact hf0 r hr txt val i hin
+      · simp only [Cell.lit.injEq] at heq
+        obtain ⟨_, hv, hp⟩ := heq
+        subst hv
+        have hk : q.places[k]? = some (.ok i) := by
+          rw [List.getD_eq_getElem?_getD] at hp
+          cases hg : q.places[k]? with
+          | none => simp [hg] at hp
+          | some pl => simp [hg] at hp; rw [hp]
+        obtain ⟨hr1, hr2⟩ := hq k i hk
+        exact ⟨hr1, hr2⟩
+  rcases sequence_fills_only_sequence_cells q s s' hm h with ⟨si, _, _, hall⟩ | ⟨_, _, hall⟩
+  · exact step si s.rows hf hall
+  · refine step _ _ ?_ hall
+    intro row hrow txt val i hmem
+    simp only [List.mem_map] at hrow
+    obtain ⟨r, hr, he⟩ := hrow
+    subst he
+    simp only [List.mem_append, List.mem_singleton, reduceCtorEq, or_false] at hmem
+    exact hf r hr txt val i hmem
+
+/-- **C03 (the row is stored where its stored value is looked for).** For an
+    accepted insert on a sharded table whose rule places keys by `find`, with
+    `StoredSound` for the rule's type (proved above for range, mod, hash,
+    mycat_mod, mycat_long and the calendar rules; for mycat_murmur /
+    mycat_string see `viaStr_stored_sound_partial`): every row of every produced
+    statement has a sharding literal which `find` places in table `i`, the
+    statement is the statement of table `i`, and every other spelling of the
+    value the backend holds for that literal (the digits of an integer literal
+    as a string, the integer MySQL reads from a string literal) that `find`
+    places at all is placed in table `i` too. -/
+theorem insert_stored_value (t : TableRule) (seq : Option Seq) (s : Stmt) (out : List (Target Out))
+    (find : Key → Out Int) (hk : t.layout.kind ≠ .global) (h : handleInsertStmt head t seq s = .ok out)
+    (hsound : StoredSound t.ruleType find) :
+    ∃ s' sci, handleInsertGlobalSequenceValue seq s = .ok s' ∧ lastIndex t.shardCol s'.cols = some sci ∧
+      (Faithful find s'.rows →
+        ∀ o ∈ out, ∀ row ∈ o.sql.rows, ∃ i txt val, row[sci]? = some (.lit txt val (.ok i)) ∧
+          Stored t s' i o.sql.rows o ∧ find (keyOf val) = .ok i ∧
+          ∀ k ∈ storedKeys t.ruleType val, ∀ j, find k = .ok j → j = i) := by
+  have key : ∀ (s' : Stmt) (sci : Nat) (row : Row) (i : Int), Faithful find s'.rows → row ∈ s'.rows →
+      PlacedAt t.ruleType sci row i → ∃ txt val, row[sci]? = some (.lit txt val (.ok i)) ∧ find (keyOf val) = .ok i ∧
+        ∀ k ∈ storedKeys t.ruleType val, ∀ j, find k = .ok j → j = i := by
+    intro s' sci row i hf hrow ⟨txt, val, hcell, hok⟩
+    have hmem : Cell.lit txt val (.ok i) ∈ row := List.mem_of_getElem? hcell
+    obtain ⟨hwf, hfind⟩ := hf row hrow txt val i hmem
+    exact ⟨txt, val, hcell, hfind, hsound val i hwf hok hfind⟩
+  cases hm : (match handleInsertGlobalSequenceValue seq s with | .ok s' => s'.setMode | _ => false) with
+  | false =>
+    obtain ⟨s', sci, hseq, hsci, hv⟩ := insert_partition t seq s out hk h
+    refine ⟨s', sci, hseq, hsci, ?_⟩
+    simp only [hseq] at hm
+    obtain ⟨groups, hf2, hperm, _, hpl⟩ := hv hm
+    intro hfaith o ho row hrow
+    obtain ⟨g, hg', hst⟩ := hf2.exists_left o ho
+    have hr : row ∈ g.2 := by rw [← hst.rows]; exact hrow
+    have hrs : row ∈ s'.rows := by
+      apply hperm.subset
+      simp only [List.mem_flatMap]
+      exact ⟨g, hg', hr⟩
+    obtain ⟨txt, val, hc, hfd, hall⟩ := key s' sci row g.1 hfaith hrs ((hpl g hg').2 row hr)
+    exact ⟨g.1, txt, val, hc, by rw [hst.rows]; exact hst, hfd, hall⟩
+  | true =>
+    obtain ⟨s', sci, hseq, hsci, hv⟩ := insert_set_once t seq s out hk h
+    refine ⟨s', sci, hseq, hsci, ?_⟩
+    simp only [hseq] at hm
+    obtain ⟨row, i, o', hrows, hout, hp, _, hst⟩ := hv hm
+    intro hfaith o ho r hr
+    subst hout
+    simp only [List.mem_singleton] at ho
+    subst ho
+    rw [hst.rows] at hr
+    simp only [List.mem_singleton] at hr
+    subst hr
+    obtain ⟨txt, val, hc, hfd, hall⟩ := key s' sci r i hfaith (by rw [hrows]; simp) hp
+    exact ⟨i, txt, val, hc, by rw [hst.rows]; exact hst, hfd, hall⟩
+
+/-! ### Statements the planner cannot place are refused (second round) -/
+
+/-- `INSERT … SELECT` (sharded or global table): the rows are not in the
+    statement, the proxy cannot split them; refused -/
+theorem insert_reject_select (t : TableRule) (seq : Option Seq) (s : Stmt) (hsel : s.hasSelect = true) :
+    handleInsertStmt head t seq s = .fail := by
+  simp [handleInsertStmt, precheckInsertStmt, hsel]
+
+/-- `INSERT … VALUES` without a column list: the position of the sharding value is not known; refused -/
+theorem insert_reject_no_column_list (t : TableRule) (seq : Option Seq) (s : Stmt)
+    (hsel : s.setMode = false) (hcols : s.cols = []) : handleInsertStmt head t seq s = .fail := by
+  unfold handleInsertStmt precheckInsertStmt
+  cases hs : s.hasSelect <;> simp [hsel, hcols]
+
+/-- **ON DUPLICATE KEY UPDATE must not move the row**: an assignment to the
+    sharding column (however the column is written: the harness hands over
+    `Column.Name.L`, so upper case, back quotes and qualifiers do not matter, and
+    whatever the assigned expression is, `VALUES(col)` included) makes the
+    statement refused. -/
+theorem insert_reject_on_duplicate_sharding_column (t : TableRule) (seq : Option Seq) (s s' : Stmt)
+    (hk : t.layout.kind ≠ .global) (hseq : handleInsertGlobalSequenceValue seq s = .ok s')
+    (hdup : t.shardCol ∈ s'.onDup) : ∀ out, handleInsertStmt head t seq s ≠ .ok out := by
+  intro out h
+  unfold handleInsertStmt at h
+  split at h <;> try simp at h
+  simp only [hseq, hk, ↓reduceIte] at h
+  split at h <;> try simp at h
+  have hd : handleInsertOnDuplicate t s' = .fail := by
+    unfold handleInsertOnDuplicate
+    simp [hdup]
+  rw [hd] at h
+  simp at h
+
+/-- a hexadecimal, bit, decimal or float literal as sharding value: refused (40aac80) -/
+theorem insert_reject_literal_kind (t : TableRule) (seq : Option Seq) (s s' : Stmt) (sci : Nat)
+    (hk : t.layout.kind ≠ .global)
+    (hseq : handleInsertGlobalSequenceValue seq s = .ok s') (hsci : lastIndex t.shardCol s'.cols = some sci)
+    (hbad : ∃ row ∈ s'.rows, ∃ txt pl, row[sci]? = some (.lit txt .other pl)) :
+    ∀ out, handleInsertStmt head t seq s ≠ .ok out := by
+  apply insert_reject t seq s s' sci hk hseq hsci
+  obtain ⟨row, hr, txt, pl, hc⟩ := hbad
+  refine ⟨row, hr, ?_⟩
+  rintro ⟨i, txt', val, hc', hok⟩
+  rw [hc] at hc'
+  simp only [Option.some.injEq, Cell.lit.injEq] at hc'
+  rw [← hc'.2.1] at hok
+  simp [shardingValueOk] at hok
+
+/-- on a hash rule a string sharding value that MySQL reads as a number while
+    `HashValue` would hash its text: refused (e5ce616) -/
+theorem insert_reject_hash_numeric_text (t : TableRule) (seq : Option Seq) (s s' : Stmt) (sci : Nat)
+    (hk : t.layout.kind ≠ .global) (hrt : t.ruleType = "hash")
+    (hseq : handleInsertGlobalSequenceValue seq s = .ok s') (hsci : lastIndex t.shardCol s'.cols = some sci)
+    (hbad : ∃ row ∈ s'.rows, ∃ txt str pl, row[sci]? = some (.lit txt (.str str) pl) ∧
+      looksLikeNumber str = true ∧ parseUint64 str = none) :
+    ∀ out, handleInsertStmt head t seq s ≠ .ok out := by
+  apply insert_reject t seq s s' sci hk hseq hsci
+  obtain ⟨row, hr, txt, str, pl, hc, hl, hu⟩ := hbad
+  refine ⟨row, hr, ?_⟩
+  rintro ⟨i, txt', val, hc', hok⟩
+  rw [hc] at hc'
+  simp only [Option.some.injEq, Cell.lit.injEq] at hc'
+  rw [← hc'.2.1, hrt] at hok
+  simp [shardingValueOk, hashStringOk, hl, hu] at hok
+
+
+/-! ### Non-vacuity and the defects repaired in the second round -/
+
+/-- `'006'`, `7` and a string cell: faithful to the hash rule with four tables -/
+def exStmt2 : Stmt :=
+  { exStmt with rows := [[.lit "1" (.int 1) (.ok 1), .lit "'a'" (.str [97]) (.ok 3)],
+                         [.lit "'006'" (.str [48, 48, 54]) (.ok 2), .null]] }
+
+/-- the hypotheses of `insert_stored_value` are satisfiable, with a row whose
+    key is written as a string MySQL reads as a number: `'006'` is in the table
+    of 6 -/
+example : (observe (handleInsertStmt head exRule none exStmt2)).isSome = true ∧ exRule.layout.kind ≠ .global ∧
+    Faithful (HashShard.FindForKey 4) exStmt2.rows ∧
+    storedKeys "hash" (.str [48, 48, 54]) = [.int64 6] ∧ HashShard.FindForKey 4 (.int64 6) = .ok 2 ∧
+    storedKeys "hash" (.int 1) = [.str [49]] ∧ HashShard.FindForKey 4 (.str [49]) = .ok 1 := by
+  refine ⟨by decide, by decide, ?_, by decide, by decide, by decide, by decide⟩
+  intro row hrow txt val i hmem
+  simp only [exStmt2, exStmt, List.mem_cons, List.not_mem_nil, or_false] at hrow
+  rcases hrow with hrow | hrow <;> subst hrow <;>
+    simp only [List.mem_cons, List.not_mem_nil, or_false, Cell.lit.injEq, reduceCtorEq, Place.ok.injEq] at hmem
+  · rcases hmem with ⟨_, h2, h3⟩ | ⟨_, h2, h3⟩ <;> subst h2 <;> subst h3 <;> exact ⟨by simp [LitVal.wf], by decide⟩
+  · obtain ⟨_, h2, h3⟩ := hmem
+    subst h2; subst h3; exact ⟨by simp [LitVal.wf], by decide⟩
+
+/-- the sharding key comes from the global sequence: `INSERT INTO t (a) VALUES (1),(2)` with the
+    sequence on `k` starting at 6 is stored in tables 2 and 3, where 6 and 7 are looked for -/
+def exKeySeq : Seq := { pk := "k", start := 6, failAt := none, places := [.ok 2, .ok 3] }
+
+example : SeqFaithful (HashShard.FindForKey 4) exKeySeq ∧
+    observe (handleInsertStmt head exRule (some exKeySeq)
+        { exStmt with cols := ["a"], rows := [[.lit "1" (.int 1) (.ok 1)], [.lit "2" (.int 2) (.ok 2)]] }) =
+      some [⟨"slice-1", "db_ks", ["t_0002"], [[.lit "1" (.int 1) (.ok 1), .lit "6" (.int 6) (.ok 2)]]⟩,
+            ⟨"slice-1", "db_ks", ["t_0003"], [[.lit "2" (.int 2) (.ok 2), .lit "7" (.int 7) (.ok 3)]]⟩] := by
+  refine ⟨?_, by decide⟩
+  intro k i h
+  match k with
+  | 0 => simp [exKeySeq] at h; subst h; exact ⟨by simp [exKeySeq], by decide⟩
+  | 1 => simp [exKeySeq] at h; subst h; exact ⟨by simp [exKeySeq], by decide⟩
+  | n + 2 => simp [exKeySeq] at h
+
+/-- **Defect of the pinned tree (repaired by 40aac80)**: the hexadecimal literal
+    `0x10` was placed by the string "x'10'" (table 3 of 4) while the column
+    holds 16, which the rule places in table 0; the planner accepted the row
+    for table 3.  It is refused now. -/
+theorem pinned_literal_placed_by_sql_text_witness :
+    HashShard.FindForKey 4 (.str [120, 39, 49, 48, 39]) = .ok 3 ∧ HashShard.FindForKey 4 (.int64 16) = .ok 0 ∧
+    observe (handleInsertStmt { lits := true } exRule none
+        { exStmt with rows := [[.lit "x'10'" .other (.ok 3), .null]] }) =
+      some [⟨"slice-1", "db_ks", ["t_0003"], [[.lit "x'10'" .other (.ok 3), .null]]⟩] ∧
+    handleInsertStmt head exRule none { exStmt with rows := [[.lit "x'10'" .other (.ok 3), .null]] } = .fail := by
+  decide
+
+/-- **Defect of the pinned tree (repaired by e5ce616)**: on a hash rule `' 7'`
+    was placed by the CRC32 of its text (table 2 of 4); MySQL reads the number
+    7 from it, which the rule places in table 3.  It is refused now, while
+    `'007'` goes with 7. -/
+theorem pinned_hash_numeric_text_witness :
+    HashShard.FindForKey 4 (.str [32, 55]) = .ok 2 ∧ storedKeys "hash" (.str [32, 55]) = [.int64 7] ∧
+    HashShard.FindForKey 4 (.int64 7) = .ok 3 ∧ HashShard.FindForKey 4 (.str [48, 48, 55]) = .ok 3 ∧
+    observe (handleInsertStmt { hashStr := true } exRule none
+        { exStmt with rows := [[.lit "' 7'" (.str [32, 55]) (.ok 2), .null]] }) =
+      some [⟨"slice-1", "db_ks", ["t_0002"], [[.lit "' 7'" (.str [32, 55]) (.ok 2), .null]]⟩] ∧
+    handleInsertStmt head exRule none { exStmt with rows := [[.lit "' 7'" (.str [32, 55]) (.ok 2), .null]] } = .fail ∧
+    shardingValueOk head "hash" (.str [48, 48, 55]) = true := by
+  decide
+
+/-- two partitions of 512 slots -/
+def exSegment : List Int := List.replicate 512 0 ++ List.replicate 512 1
+
+set_option maxRecDepth 10000 in
+/-- **Known finding `mycat-numeric-string-hashed-as-text` (not repaired)**:
+    mycat_string (here: hash of the whole key, two partitions) and mycat_murmur
+    (seed 0, a ring of two nodes) place the string `'007'` and the number 7,
+    which an integer column holds for it, in different tables; the planner
+    accepts the string. -/
+theorem mycat_string_numeric_text_witness :
+    MycatPartitionStringShard.FindForKey exSegment 0 0 (.str [48, 48, 55]) = .ok 1 ∧
+    MycatPartitionStringShard.FindForKey exSegment 0 0 (.int64 7) = .ok 0 ∧
+    MycatPartitionMurmurHashShard.FindForKey 0 [(0, 0), (1000000000, 1)] (.str [48, 48, 55]) = .ok 1 ∧
+    MycatPartitionMurmurHashShard.FindForKey 0 [(0, 0), (1000000000, 1)] (.int64 7) = .ok 0 ∧
+    storedKeys "mycat_string" (.str [48, 48, 55]) = [.int64 7] ∧
+    shardingValueOk head "mycat_string" (.str [48, 48, 55]) = true := by
+  decide
+
+/-- `insert_reject_on_duplicate_sharding_column`, `insert_reject_select`,
+    `insert_reject_literal_kind`, `insert_reject_hash_numeric_text`: the
+    hypotheses are satisfiable -/
+example : handleInsertStmt head exRule none { exStmt with onDup := ["a", "k"] } = .fail ∧
+    handleInsertStmt head exRule none { exStmt with hasSelect := true, rows := [] } = .fail ∧
+    handleInsertStmt head exRule none { exStmt with cols := [] } = .fail ∧
+    looksLikeNumber [32, 55] = true ∧ parseUint64 [32, 55] = none ∧ exRule.ruleType = "hash" := by
   decide
 
 end GaeaVerif.C03
